@@ -4,7 +4,7 @@
 
   One input line = one operation.  One output line:   M<TAB><obs><TAB>S<TAB><obs or ->
 -/
-import GfsModel.Ops
+import GfsModel.OpsAll
 
 open Gfs Gfs.Proto
 
